@@ -90,8 +90,23 @@ class Ctx(object):
                 return
         self.violations.append((key, detail))
 
+    def drift(self, key, detail):
+        """The code no longer follows the IMPLEMENTATION-SHAPED model (lock order, internal lists, which thread is
+        joined first ...) although nothing the property states was seen to fail: reported, never a VIOLATION."""
+        if not hasattr(self, "drifts"):
+            self.drifts = []
+        self.drifts.append((key, detail))
+
     def finish(self):
         wall = time.time() - self.t0
+        drifts = getattr(self, "drifts", [])
+        if drifts:
+            keys = sorted(set(k for k, _ in drifts))
+            self.extra["model_drift"] = {"executions": len(drifts), "keys": keys,
+                                         "first": json.loads(json.dumps(drifts[0][1], default=str))}
+            print("MODEL-DRIFT property=%s executions=%d keys=%s (the implementation-shaped model does not explain "
+                  "these executions; the property-level judgement of the same executions is the verdict)"
+                  % (self.pid, len(drifts), ",".join(keys)))
         ev = {
             "property_id": self.pid, "tier": self.tier, "seed": self.seed, "level": LEVEL,
             "coverage": dict({
